@@ -7,6 +7,7 @@ use std::collections::BTreeMap;
 use std::str::FromStr;
 
 use purl::qualifiers::well_known::Checksum;
+#[cfg(purl_verif)]
 use purl::verif::{install_hash_plan, maps_created, HashMode};
 use purl::{GenericPurl, GenericPurlBuilder};
 use serde::{Deserialize, Serialize};
@@ -27,6 +28,7 @@ pub enum Mode {
 }
 
 impl Mode {
+    #[cfg(purl_verif)]
     fn to_hook(self) -> HashMode {
         match self {
             Mode::Keyed => HashMode::Keyed,
@@ -64,6 +66,8 @@ pub enum Op {
     Remove { alg: String },
     /// Replace the value by its clone and go on.
     CloneAndContinue,
+    /// Replace the value by a fresh one filled with `insert_raw` in the current iteration order.
+    RebuildFromIteration,
     /// Serialise a clone, parse the text back, compare with the model (also done at the end).
     RoundTripText,
     /// Put the value into a builder (typed, or as respelled text) and build (also done at the end).
@@ -153,7 +157,30 @@ fn check_state(c: &Checksum<'_>, model: &Model, at: &str) -> Result<Vec<(String,
             model.keys().collect::<Vec<_>>()
         ));
     }
+    let via_into_iter = guarded(|| c.into_iter().map(|(alg, value)| (alg.to_owned(), value.raw().to_owned())).collect::<Vec<_>>())
+        .map_err(|p| violation!("C12.panic_in_iter", "{at}: into_iter() panicked: {p}"))?;
+    if via_into_iter != entries {
+        return Err(violation!(
+            "C12.into_iter_differs_from_iter",
+            "{at}: (&checksum).into_iter() yields {:?}, iter() yields {:?}",
+            via_into_iter,
+            entries
+        ));
+    }
     for (alg, hex) in model {
+        let decoded = guarded(|| c.get::<Vec<u8>>(alg))
+            .map_err(|p| violation!("C12.panic_in_get", "{at}: get({alg:?}) panicked: {p}"))?;
+        let via_value = guarded(|| c.get_value(alg).map(|v| v.decode::<Vec<u8>>()))
+            .map_err(|p| violation!("C12.panic_in_get", "{at}: get_value({alg:?}) panicked: {p}"))?;
+        let expected = unhex(hex);
+        if !matches!(&decoded, Ok(Some(b)) if *b == expected) || !matches!(&via_value, Some(Ok(b)) if *b == expected) {
+            return Err(violation!(
+                "C12.decode_differs_from_inserted_bytes",
+                "{at}: entry {alg:?} holds the bytes {hex}, get() = {:?}, get_value().decode() = {:?}",
+                decoded.map_err(|e| e.to_string()),
+                via_value.map(|r| r.map_err(|e| e.to_string()))
+            ));
+        }
         let got = guarded(|| c.get_raw(alg).map(str::to_owned))
             .map_err(|p| violation!("C12.panic_in_get_raw", "{at}: get_raw({alg:?}) panicked: {p}"))?;
         if got.as_deref().map(str::to_ascii_lowercase).as_deref() != Some(hex.as_str()) {
@@ -387,6 +414,22 @@ fn via_parser(model: &Model, spell_seed: u64, at: &str, log: &mut Log) -> Result
     Ok(())
 }
 
+/// Log an operation with the observed iteration order (abbreviated for large entry sets).
+fn log_entries(log: &mut Log, at: &str, op: Option<&Op>, entries: &[(String, String)]) {
+    if entries.len() <= 12 {
+        ev!(log, "{at} {op:?} -> {entries:?}");
+    } else {
+        let mut h = Fnv::default();
+        for (a, x) in entries {
+            h.write(a.as_bytes());
+            h.write(b":");
+            h.write(x.as_bytes());
+            h.write(b",");
+        }
+        ev!(log, "{at} {op:?} -> {} entries, order digest {:016x}", entries.len(), h.finish());
+    }
+}
+
 fn perm_index(sorted: &[(String, String)], observed: &[(String, String)]) -> usize {
     // Lehmer code of the observed order relative to the sorted one.
     let mut pool: Vec<&String> = sorted.iter().map(|e| &e.0).collect();
@@ -406,6 +449,9 @@ struct PlanResult {
 }
 
 fn run_plan(sc: &Scenario, plan_no: usize, plan: HashPlan, log: &mut Log, stats: &mut Stats) -> Result<PlanResult, Violation> {
+    // Without the hook (the Miri lane) the plan is only a label: every map instance then takes
+    // its keys from the real std RandomState, which Miri derives from its own seed.
+    #[cfg(purl_verif)]
     install_hash_plan(plan.mode.to_hook(), plan.key);
     stats.bump(plan.mode.name());
     ev!(log, "plan {plan_no} {:?} key={:#x}", plan.mode, plan.key);
@@ -453,6 +499,15 @@ fn run_plan(sc: &Scenario, plan_no: usize, plan: HashPlan, log: &mut Log, stats:
             Op::CloneAndContinue => {
                 c = guarded(|| c.clone()).map_err(|p| violation!("C12.panic_in_clone", "{at}: clone panicked: {p}"))?;
             },
+            Op::RebuildFromIteration => {
+                let entries = guarded(|| observe(&c)).map_err(|p| violation!("C12.panic_in_iter", "{at}: iter() panicked: {p}"))?;
+                let mut fresh = Checksum::default();
+                for (alg, hex) in entries {
+                    guarded(|| fresh.insert_raw(&alg, hex))
+                        .map_err(|p| violation!("C12.panic_in_insert", "{at}: insert_raw({alg:?}) panicked: {p}"))?;
+                }
+                c = fresh;
+            },
             Op::RoundTripText => {
                 let t = serialise(&c, &model, &at)?;
                 if let Some(t) = &t {
@@ -464,13 +519,28 @@ fn run_plan(sc: &Scenario, plan_no: usize, plan: HashPlan, log: &mut Log, stats:
             Op::ViaBuilder { typed } => via_builder(&c, &model, *typed, sc.spell_seed, &at, log)?,
             Op::ViaParser => via_parser(&model, sc.spell_seed, &at, log)?,
         }
-        for threshold in [3usize, 7, 14] {
+        for threshold in [3usize, 7, 14, 28, 56] {
             if before <= threshold && model.len() > threshold {
                 stats.bump("growth_threshold_crossed");
             }
         }
-        let entries = check_state(&c, &model, &at)?;
-        ev!(log, "{at} {op:?} -> {entries:?}");
+        // In long histories the full state comparison runs on every 8th operation (and at the end);
+        // the cheap part (entry set through iter()) runs always.
+        if sc.ops.len() <= 24 || i % 8 == 7 {
+            let entries = check_state(&c, &model, &at)?;
+            log_entries(log, &at, Some(op), &entries);
+        } else {
+            let entries = guarded(|| observe(&c)).map_err(|p| violation!("C12.panic_in_iter", "{at}: iter() panicked: {p}"))?;
+            if as_model(&entries) != model_vec(&model) {
+                return Err(violation!(
+                    "C12.entries_differ_from_model",
+                    "{at}: iter() yields {:?}, reference model holds {:?}",
+                    entries,
+                    model
+                ));
+            }
+            log_entries(log, &at, Some(op), &entries);
+        }
     }
 
     // Final checks, always.
@@ -550,6 +620,7 @@ fn run_plan(sc: &Scenario, plan_no: usize, plan: HashPlan, log: &mut Log, stats:
         h.write(b",");
     }
     stats.reach(h.finish());
+    #[cfg(purl_verif)]
     stats.add("maps_created", maps_created());
     Ok(PlanResult { final_text, mid_texts, final_order })
 }
@@ -566,7 +637,10 @@ impl Sim for C12 {
         const ALGS: &[&str] = &[
             "sha1", "SHA1", "Sha1", "md5", "MD5", "sha256", "SHA256", "a:b", "A:B", "x-1", "X-1", "é",
             "É", "ǆ", "Ǆ", "ǅ", "", "İ", "a&b", "A&B", "a b", "a%b", "a#b", "a?b", "a+b", "a=b", "日本",
-            "sha512", "b", "B", "c", "aa", "ab", "Ab", "ba", "blake2b-256", "😀",
+            "sha512", "b", "B", "c", "aa", "ab", "Ab", "ba", "blake2b-256", "😀", "blake2b-512", "BLAKE2B-256",
+            "blake2b-384", "sha3-256", "sha3-512", "sha512-256", "sha512-224", "SHA512-256", "sha512-256x",
+            "sha-1", "sha_1", "sha1 ", " sha1", "sha1:", ":sha1", "a:b:c", "ss", "ß", "ẞ", "ǈ", "ǉ", "k", "K",
+            "a_b", "A_B", "a^b", "a[b", "a`b", "a{b", "a~b", "a\\b",
         ];
         const MODES: &[Mode] = &[
             Mode::Keyed,
@@ -581,21 +655,37 @@ impl Sim for C12 {
         let hash_plans =
             (0..plans).map(|_| HashPlan { mode: *rng.pick(MODES), key: rng.next_u64() }).collect();
         // Swarm: size and mix vary per run.
-        let n_ops = match rng.below(10) {
-            0 => 0,
-            1..=3 => rng.range(1, 3),
-            4..=7 => rng.range(3, 8),
-            8 => rng.range(8, 12),
-            _ => rng.range(12, 22),
+        let large = rng.chance(1, 50);
+        let n_ops = if large {
+            rng.range(25, 70)
+        } else {
+            match rng.below(10) {
+                0 => 0,
+                1..=3 => rng.range(1, 3),
+                4..=7 => rng.range(3, 8),
+                8 => rng.range(8, 12),
+                _ => rng.range(12, 22),
+            }
         };
-        let universe_size = *rng.pick(&[2usize, 3, 5, 8, ALGS.len()]);
+        // Large runs draw from a generated family (common prefixes, two letter cases) so that the
+        // entry count crosses the growth thresholds 14, 28 and 56 of std's HashMap.
+        let generated: Vec<String> = if large {
+            (0..48)
+                .flat_map(|i| [format!("alg{i}"), format!("ALG{i}")])
+                .chain((0..16).map(|i| format!("sha512-{i:03}")))
+                .collect()
+        } else {
+            Vec::new()
+        };
+        let universe_size = if large { generated.len() } else { *rng.pick(&[2usize, 3, 5, 8, ALGS.len()]) };
         let universe: Vec<&str> = {
-            let mut u: Vec<&str> = ALGS.to_vec();
+            let mut u: Vec<&str> =
+                if large { generated.iter().map(String::as_str).collect() } else { ALGS.to_vec() };
             rng.shuffle(&mut u);
             u.truncate(universe_size);
             u
         };
-        let remove_weight = rng.below(3);
+        let remove_weight = if large { 0 } else { rng.below(3) };
         let mut ops = Vec::new();
         let alg = |rng: &mut Rng| -> String {
             if rng.chance(1, 12) {
@@ -607,7 +697,7 @@ impl Sim for C12 {
             }
         };
         let hex = |rng: &mut Rng, mixed: bool| -> String {
-            let len = *rng.pick(&[0usize, 1, 1, 2, 4, 20, 32]);
+            let len = *rng.pick(&[0usize, 1, 1, 2, 4, 16, 20, 32, 48, 64, 100]);
             let mut s = String::new();
             for _ in 0..len * 2 {
                 let digits: &[u8] = if mixed && rng.chance(1, 2) { b"0123456789ABCDEF" } else { b"0123456789abcdef" };
@@ -619,7 +709,13 @@ impl Sim for C12 {
             let op = match rng.below(14 + remove_weight * 2) {
                 0..=4 => Op::Insert { alg: alg(&mut rng), bytes_hex: hex(&mut rng, false) },
                 5..=8 => Op::InsertRaw { alg: alg(&mut rng), hex: hex(&mut rng, true) },
-                9 => Op::CloneAndContinue,
+                9 => {
+                    if rng.chance(1, 2) {
+                        Op::CloneAndContinue
+                    } else {
+                        Op::RebuildFromIteration
+                    }
+                },
                 10 => Op::RoundTripText,
                 11 => Op::ViaBuilder { typed: rng.chance(1, 2) },
                 12 => Op::ViaParser,
